@@ -7,7 +7,7 @@ From PV Require Import C23.Model C23.Lemmas C23.ProofsA.
 
 Definition chkB (under : bool) (lt : ltype) (_ _ : bool) : bool := negb (under && ltype_eqb lt LColours).
 Definition clB (c : bool) (_ : ltype) : bool := c.
-Definition cdB (_ : bool) (_ : dir) : bool := true.
+Definition cdB (c : bool) (d : dir) : bool := c || dir_parallel d.
 Definition ginvB : bool -> node -> bool := ginv chkB (fun _ => true) clB cdB.
 
 Lemma ginvB_eq : forall n under, ginvB under n = invB under n.
@@ -30,9 +30,11 @@ Qed.
 
 Lemma ctxB_eq : forall ancs, ctx clB cdB ancs = existsb anc_is_dir ancs.
 Proof.
-  induction ancs as [|a ancs IH]; [reflexivity|]. destruct a; cbn.
-  - unfold clB. exact IH.
+  induction ancs as [|a ancs IH]; [reflexivity|].
+  change (ctx clB cdB (a :: ancs)) with (cstep clB cdB a (ctx clB cdB ancs)).
+  rewrite IH. destruct a; cbn.
   - reflexivity.
+  - unfold cdB. apply orb_comm.
 Qed.
 
 (* a subtree without any loop over colours may be put below a directive *)
@@ -56,7 +58,7 @@ Proof.
     rewrite (lift_list body u IH Hc2 Hi2).
     destruct lt; cbn in *; try reflexivity; discriminate.
   - reflexivity.
-  - intros d body IH u Hc Hi. cbn in *. exact Hi.
+  - intros d body IH u Hc Hi. cbn in *. exact (lift_list body _ IH Hc Hi).
   - reflexivity.
   - reflexivity.
 Qed.
@@ -79,7 +81,7 @@ Section B.
     intros o ancs m m' H Hm. unfold both, safeB_f in H.
     rewrite ctxB_eq in *. rewrite ginvB_list in *.
     destruct (existsb (contains is_colours_loop) (op_sel o m)) eqn:Esel; try discriminate.
-    destruct o as [p i|p i|p i|p i da|p i n|p i n]; cbn [op_fun snd op_sel] in *.
+    destruct o as [p i|p i|p i|p i da sq gg vv c2|p i n|p i n]; cbn [op_fun snd op_sel] in *.
     - (* colour *)
       destruct (existsb anc_is_dir ancs) eqn:Eu; try discriminate.
       unfold colour_f in H.
@@ -111,12 +113,15 @@ Section B.
     - (* acc loop *)
       unfold wrap_loop_f in H.
       destruct (nth_error m i) as [[lt disc body|? ? ?|? ?| |]|] eqn:En; try discriminate.
-      destruct (accloop_ok incs lt (NLoop lt disc body) da); try discriminate.
+      destruct (accloop_ok incs lt (NLoop lt disc body) da sq c2); try discriminate.
       inversion H; subst. apply forallb_splice; [exact Hm|].
       rewrite (nth_range1 _ _ _ En) in Esel.
       cbn [forallb invB]. rewrite andb_true_r.
-      apply (lift_all [NLoop lt disc body] (existsb anc_is_dir ancs) Esel).
-      cbn [forallb]. rewrite (forallb_nth _ _ _ _ Hm En). reflexivity.
+      destruct sq; cbn [accloop_dir dir_parallel].
+      + rewrite orb_false_r. cbn [forallb]. rewrite (forallb_nth _ _ _ _ Hm En). reflexivity.
+      + rewrite orb_true_r.
+        apply (lift_all [NLoop lt disc body] (existsb anc_is_dir ancs) Esel).
+        cbn [forallb]. rewrite (forallb_nth _ _ _ _ Hm En). reflexivity.
     - (* omp parallel *)
       rewrite (region_shape _ _ _ _ _ _ H). apply forallb_splice; [exact Hm|].
       cbn [forallb invB]. rewrite andb_true_r.
